@@ -109,6 +109,10 @@ def corpus():
     C.append(S('Q00', 'struct', [F('f00', 'u8', 0), F('f01', 'core::option::Option<u8>', 1), F('f02', 'std::option::Option<String>', 2)], doc='path-qualified Option, array'))
     C.append(S('Q01', 'struct', [F('f00', 'u8', 0), F('f01', "core::option::Option<&'a [u8]>", 1, b=True, codec='bytes'), F('f02', "std::option::Option<Cow<'a, [u8]>>", 3, b=True, codec='bytes')],
                enc='map', lifetimes=True, doc='path-qualified Option with a codec that has no nil functions, map'))
+    C.append(S('Q02', 'struct', [F('f00', "alloc::borrow::Cow<'a, str>", 0, b=True), F('f01', "alloc::borrow::Cow<'a, ByteSlice>", 1, b=True),
+                                 F('f02', "::alloc::borrow::Cow<'a, str>", 2, b=True), F('f03', "Option<alloc::borrow::Cow<'a, str>>", 3, b=True)], lifetimes=True,
+               doc='path-qualified Cow (alloc::borrow::Cow) in borrowing fields'))
+    C.append(S('Q03', 'tuple', [F('_0', "alloc::borrow::Cow<'a, str>", 0, b=True)], transparent=True, lifetimes=True, doc='transparent, alloc::borrow::Cow'))
     C.append(E('E17', [Var('V2', 2), Var('V0', 0, 'tuple', [F('_0', 'u8', 0)]), Var('V1', 1, 'named', [F('f00', 'u8', 0), F('f01', 'Option<u8>', 1)])], doc='variants declared out of index order'))
     C.append(E('E18', [Var('V3', 3), Var('V1', 1), Var('V2', 2)], index_only=True, doc='index_only, variants declared out of index order'))
     # --- tag numbers and indices at the width boundaries of a CBOR head (23|24, 2^8-1|2^8, 2^16-1|2^16, 2^32-1|2^32, 2^64-1) at
@@ -323,6 +327,7 @@ def emit(s):
 
 HEADER = '''// GENERATED by tools/gen_schemas.py - do not edit.
 #![allow(dead_code, unused_imports)]
+extern crate alloc;
 use minicbor::{Encode, Decode, CborLen};
 use minicbor::bytes::ByteSlice;
 use minicbor::data::Tagged;
@@ -448,6 +453,15 @@ def main():
     os.makedirs(os.path.join(outdir, 'src'), exist_ok=True)
     open(os.path.join(outdir, 'src', 'lib.rs'), 'w').write(src)
     json.dump({'schemas': C, 'pairs': pair_meta, 'seed': seed, 'random': rnd_n}, open(os.path.join(outdir, 'schemas.json'), 'w'), indent=1)
+    if not rnd_n and outdir == os.path.join(V, 'harness', 'schemas'):
+        # the same corpus as a no_std + alloc crate: the proc-macro picks some templates by its own cargo features (std / alloc)
+        adir = os.path.join(V, 'harness', 'schemas-alloc')
+        os.makedirs(os.path.join(adir, 'src'), exist_ok=True)
+        asrc = src.replace('#![allow(dead_code, unused_imports)]', '#![no_std]\n#![allow(dead_code, unused_imports)]\nuse alloc::{string::String, boxed::Box, vec::Vec};', 1)
+        asrc = asrc.replace('use std::borrow::Cow;', 'use alloc::borrow::Cow;').replace('std::option::Option', 'core::option::Option')
+        open(os.path.join(adir, 'src', 'lib.rs'), 'w').write(asrc)
+        open(os.path.join(adir, 'Cargo.toml'), 'w').write('[package]\nname = "mcv-schemas-alloc"\nversion = "0.0.0"\nedition = "2021"\npublish = false\n\n[lib]\nname = "mcv_schemas"\npath = "src/lib.rs"\n\n'
+                                                          '[dependencies]\nminicbor = { path = "/repo/minicbor", default-features = false, features = ["alloc", "derive"] }\n')
     print('wrote %d schemas, %d pairs' % (len(C), len(pair_meta)))
 
 
